@@ -40,6 +40,10 @@ CHECKS = {
          "model_checking",
          "Bounded model checking of schedules: every schedule in the stated vocabulary/pre-emption bound is a path; each checks that every iterator/thread observes exactly the uncached sequence, nothing raises, no deadlock, the mutex is free at quiescence.",
          "Trusted: statement-granularity atomicity (attribute access, list ops atomic; advancing the shared generator is split into begin/end so re-entrancy is visible), the AST rewriting (its output is printed in DESIGN.md; sequential semantics preserved by construction), model lock. Real OS threads, >2 threads, pre-emption bound >2 are outside.", "§5 C11", "seqz"),
+ "C18": ("histories and logical-thread schedules as solver variables explored by CrossHair core + z3: (a) sequences of request / fresh / drop+gc / cache_clear / set_cache_size over the real tzoffset, tzstr and gettz factories; (b) the factories' __call__ methods re-parsed and rewritten (AST) into step generators, two logical threads with symbolic switch points and a model mutex; (c) equality/copy/pickle laws on zones from small symbolic parameter ranges",
+         "model_checking",
+         "Bounded model checking of operation histories (length 3 quick / 4 thorough over a 7-10 operation vocabulary) and of two-thread schedules with pre-emption bound 1-2 at statement granularity; identity is demanded while the harness holds a reference.",
+         "Trusted: CPython reference counting for weak entries (gc.collect() after a drop), GIL-granularity atomicity of dict/OrderedDict/WeakValueDictionary calls, the AST rewriting, the model mutex. All values are pinned per path (these cells enumerate a finite configuration space through the solver); real OS threads are outside.", "§5 C18", "seqz"),
 }
 NA = {}
 
